@@ -162,7 +162,8 @@ def nameLoop (extra : Char → CharClass) : List Char → Bool → Bool → Name
     else if r = '-' then nameLoop extra rest false true
     else (.invalidChar, containsDash)
 
-def utf8 (s : List Char) : Bytes := (String.ofList s).toUTF8.toList
+/-- The UTF-8 bytes of a string (`len(s)` and `s[i]` in Go are on these). -/
+def utf8 (s : List Char) : Bytes := s.flatMap String.utf8EncodeChar
 
 /-- `selection.EnsureNameValid`. -/
 def ensureNameValid (extra : Char → CharClass) (name : List Char) : NameResult :=
